@@ -45,6 +45,16 @@ fn families() -> Vec<(&'static str, fn(&mut Rng, usize) -> Case)> {
     ]
 }
 
+/// CPU time (user + system) consumed by this process so far, in ms (from /proc/self/stat)
+fn cpu_ms() -> u64 {
+    let Ok(stat) = std::fs::read_to_string("/proc/self/stat") else { return 0 };
+    // fields after the last ')': state ppid ... utime is the 12th, stime the 13th of the remainder
+    let Some(rest) = stat.rsplit(')').next() else { return 0 };
+    let f: Vec<&str> = rest.split_whitespace().collect();
+    let ticks: u64 = f.get(11).and_then(|x| x.parse::<u64>().ok()).unwrap_or(0) + f.get(12).and_then(|x| x.parse::<u64>().ok()).unwrap_or(0);
+    ticks * 10 // USER_HZ = 100
+}
+
 fn main() {
     let args: Vec<String> = std::env::args().collect();
     if (args.len() == 3 || args.len() == 4) && args[1] == "--tracing-child" {
@@ -76,6 +86,7 @@ fn main() {
     // Watchdog: a poll of the runner that never returns (C04) cannot be interrupted in-process.
     // If one case takes longer than the limit, record which one and leave with exit code 97.
     static CASE_STARTED_MS: std::sync::atomic::AtomicU64 = std::sync::atomic::AtomicU64::new(0);
+    static CASE_STARTED_CPU: std::sync::atomic::AtomicU64 = std::sync::atomic::AtomicU64::new(0);
     static CASE_INDEX: std::sync::atomic::AtomicU64 = std::sync::atomic::AtomicU64::new(0);
     let t_start = std::time::Instant::now();
     {
@@ -84,12 +95,18 @@ fn main() {
         std::thread::spawn(move || loop {
             std::thread::sleep(std::time::Duration::from_millis(200));
             let started = CASE_STARTED_MS.load(std::sync::atomic::Ordering::SeqCst);
-            let now = t_start.elapsed().as_millis() as u64;
-            if started > 0 && now.saturating_sub(started) > 8_000 {
+            if started == 0 { continue; }
+            let wall = (t_start.elapsed().as_millis() as u64).saturating_sub(started);
+            let cpu = cpu_ms().saturating_sub(CASE_STARTED_CPU.load(std::sync::atomic::Ordering::SeqCst));
+            // A hang inside the runner is a poll that never returns: it BURNS CPU. Wall time alone is not
+            // evidence (the machine may be overloaded and this process descheduled for seconds), so the
+            // criterion is CPU time consumed by this process during the case; wall time is only a very
+            // generous backstop (a blocked, non-spinning hang is ended by the harness' own stuck detection).
+            if cpu > 10_000 || wall > 600_000 {
                 let idx = CASE_INDEX.load(std::sync::atomic::Ordering::SeqCst);
                 let _ = fs::write(
                     out.join("hang.json"),
-                    format!("{{\"family\": \"{fam}\", \"seed\": {seed}, \"case\": {idx}, \"what\": \"a case did not return within 8 s (the runner's stream never ended or a poll never returned)\"}}"),
+                    format!("{{\"family\": \"{fam}\", \"seed\": {seed}, \"case\": {idx}, \"what\": \"a case did not return after {cpu} ms of CPU time / {wall} ms of wall time (the runner's stream never ended or a poll never returned)\"}}"),
                 );
                 std::process::exit(97);
             }
@@ -102,9 +119,11 @@ fn main() {
     let mut hist: BTreeMap<String, usize> = BTreeMap::new();
     let mut distinct: HashSet<String> = HashSet::new();
     let mut samples: Vec<String> = Vec::new();
+    let mut not_ended = 0usize;
     for i in 0..count {
         let mut r = rng.fork();
         CASE_INDEX.store(i as u64, std::sync::atomic::Ordering::SeqCst);
+        CASE_STARTED_CPU.store(cpu_ms(), std::sync::atomic::Ordering::SeqCst);
         CASE_STARTED_MS.store(t_start.elapsed().as_millis() as u64 + 1, std::sync::atomic::Ordering::SeqCst);
         if only.is_some_and(|o| o != i) { continue; }
         let c = match std::panic::catch_unwind(std::panic::AssertUnwindSafe(|| genf(&mut r, i))) {
@@ -122,6 +141,14 @@ fn main() {
             writeln!(imp, "{il}").unwrap();
         }
         assert_eq!(c.req.lines().count(), c.imp.lines().count(), "case {i}: req/impl line mismatch");
+        // runs that do not end take long each; three of them are evidence enough — stop early
+        if c.imp.contains("!run-did-not-end") {
+            not_ended += 1;
+            if not_ended >= 3 {
+                *hist.entry("aborted-after-3-runs-that-did-not-end".to_owned()).or_default() += 1;
+                break;
+            }
+        }
         *hist.entry(c.class.clone()).or_default() += 1;
         if c.nontrivial {
             distinct.insert(c.req.clone());
